@@ -77,7 +77,7 @@ _REG = {}
 
 
 def _build():
-    from .oracles import c01, c02, c03, c06, c07, c09, c10, c13, c14, c15
+    from .oracles import c01, c02, c03, c04, c06, c07, c09, c10, c13, c14, c15
 
     _REG["C02"] = seq_spec(
         "C02",
@@ -264,6 +264,27 @@ def _build():
         world_kw={"bw_bias": 0.9},
         assumptions=["NOT decided here (pure filter algebra over arbitrary inputs, no state/order/fault in it): linearity for arbitrary sample pairs, the 'tone at the bandwidth is halved' law, tail bound for waveforms that never occur in generated programs, tail of the detuning output", "Channel.apply_modulation of the real code is the filter under test; Pulse.fall_time is the accounted fall time"],
         expected_probes=["tail_with_end_buffer", "separated_pulses_checked", "modulated_sampling_with_empty_channel", "fall_time_recomputed_after_cache_fault", "superposition_checked"],
+    )
+
+    _REG["C04"] = seq_spec(
+        "C04",
+        "exploration",
+        "seeded SEQ-SIM runs with 'restart' faults at seeded instants: the live sequence is persisted (abstract repr / legacy JSON), dropped, restored and the run CONTINUES on the restored object under RefSched and RefPhase, so hidden state the JSON failed to carry shows up later; restored object compared field-wise with the original; abstract repr validated against the published schema; non-trivial = a restart of a program with >=5 operations and >=1 non-default optional argument; distinct = distinct concrete op traces. (Parametrized templates: see the TMPL-SIM part of this check.)",
+        A.make_profile(
+            w_fault=1.0,
+            fault_kinds={"bad": 1, "restart": 6, "cache": 0.3},
+            restart_kinds={"restart_abstract": 3, "restart_legacy": 2, "restart_build": 0, "restart_switch_register": 0, "restart_switch_device_same": 0},
+            max_restarts=6,
+            slm_p=0.4,
+            measure_p=0.3,
+            w_observer=0.15,
+        ),
+        lambda: [c04.C04(), c09.Relabel(c03.C03(), "C04/continued-sched-", only=("C03/not-minimal", "C03/conflict", "C03/barrier")), c09.Relabel(c07.C07(), "C04/continued-phase-", only=("C07/reference", "C07/pulse-phase", "C07/shift-time", "C07/barrier"))],
+        nontrivial_fn=c04.nontrivial,
+        world_kw={"xy_p": 0.25},
+        runs={"quick": 3000, "thorough": 60000},
+        assumptions=["legacy JSON is only claimed for built-in and virtual devices (custom physical Device classes are documented as unsupported)", "set-valued targets are compared as sets (hash order)"],
+        expected_probes=["restart_abstract", "restart_legacy", "schema_validated"],
     )
 
 
